@@ -1050,20 +1050,29 @@ def default_inline_policy(t, callee):
 
 
 def reach_under_variant(fn, param_local, adt, variant, discr, variants_by_name, F=None):
-    """blocks reachable from the entry when parameter `param_local` (of enum type `adt`, a field-less enum) holds `variant`:
+    return reach_under_variants(fn, {param_local: variant}, adt, variants_by_name, F=F)
+
+
+def reach_under_variants(fn, fixed, adt, variants_by_name, F=None):
+    """blocks reachable from the entry when each parameter in `fixed` ({local: variant name}, all of enum type `adt`) holds the
+    given variant (several parameters at once: the case table of a binary operation on an enum):
     switches on its discriminant, and on the result of comparing it (==, !=) with a literal variant of the same enum, take only
     the edge that value selects; every other branch is followed both ways"""
     blocks = fn["blocks"]
     du = DefUse(fn)
 
     def is_param(op_or_pl):
+        """the fixed parameter this place is (a copy of), or None"""
         pl = op_or_pl if "l" in op_or_pl else op_place(op_or_pl)
         if pl is None:
-            return False
+            return None
+        hit = set()
         for o in provenance(fn, du, pl):
-            if not (o.kind == "arg" and o.local == param_local and not [p for p in o.proj if not p.startswith(" as ")]):
-                return False
-        return True
+            if o.kind == "arg" and o.local in fixed and not [p for p in o.proj if not p.startswith(" as ")]:
+                hit.add(o.local)
+            else:
+                return None
+        return hit.pop() if len(hit) == 1 else None
 
     def lit_variant(op):
         outs = set()
@@ -1092,18 +1101,21 @@ def reach_under_variant(fn, param_local, adt, variant, discr, variants_by_name, 
     for bi, b in enumerate(blocks):
         for s in b["s"]:
             rv = s["rv"]
-            if rv["k"] == "discr" and is_param(rv["pl"]):
-                known[s["lhs"]["l"]] = ("discr",)
+            if rv["k"] == "discr" and is_param(rv["pl"]) is not None:
+                known[s["lhs"]["l"]] = ("discr", is_param(rv["pl"]))
         t = b["t"]
         if t["k"] == "call" and len(t["args"]) == 2 and (t.get("callee") or "") in ("std::cmp::PartialEq::eq", "std::cmp::PartialEq::ne"):
             a, c = t["args"]
             other = None
-            if is_param(a):
+            who = None
+            if is_param(a) is not None:
                 other = lit_variant(c)
-            elif is_param(c):
+                who = is_param(a)
+            elif is_param(c) is not None:
                 other = lit_variant(a)
+                who = is_param(c)
             if other is not None:
-                eq = (other == variant)
+                eq = (other == fixed[who])
                 known[t["dest"]["l"]] = ("bool", eq if t["callee"].endswith("::eq") else not eq)
     seen = {0}
     st = [0]
@@ -1129,7 +1141,7 @@ def reach_under_variant(fn, param_local, adt, variant, discr, variants_by_name, 
                             if p2 is not None and p2["l"] in known and known[p2["l"]][0] == "bool":
                                 kv = ("bool", not known[p2["l"]][1])
             if kv is not None:
-                val = discr if kv[0] == "discr" else (1 if kv[1] else 0)
+                val = variants_by_name[fixed[kv[1]]] if kv[0] == "discr" else (1 if kv[1] else 0)
                 tm = dict((v, tb) for v, tb in t["targets"])
                 nxt = [tm.get(val, t["otherwise"])]
         if nxt is None:
@@ -1139,3 +1151,117 @@ def reach_under_variant(fn, param_local, adt, variant, discr, variants_by_name, 
                 seen.add(y)
                 st.append(y)
     return seen
+
+
+# ------------------------------------------------------------------------------------------
+# path-wise symbolic walk under known enum parameters (case tables of operations on small enums)
+
+
+def walk_under_variants(fn, fixed, adt, discr_of, max_paths=64, max_steps=4000):
+    """Follow the control flow of `fn` with the parameters in `fixed` ({local: variant name}) known, carrying for every local
+    which value it holds *on this path*: a parameter (with the projections applied), an aggregate of known variant, a tuple,
+    the result of a call, a literal.  Branches on a known discriminant take one edge; unknown branches are explored both ways.
+    Yields the symbolic value of the return place for each path that returns.  Values:
+        ("param", k, proj)  ("agg", adt, variant, [values])  ("tuple", [values])  ("call", name, [values])  ("const", c)  ("?",)"""
+    blocks = fn["blocks"]
+    results = []
+    stack = [(0, {k: ("param", k, ()) for k in fixed}, 0)]
+    paths = 0
+
+    def proj_val(v, projs):
+        for p in projs:
+            if p[0] == "d":
+                continue
+            if v[0] == "param":
+                v = ("param", v[1], v[2] + ((p[0], p[1]),))
+            elif v[0] == "tuple" and p[0] == "f" and p[1].isdigit() and int(p[1]) < len(v[1]):
+                v = v[1][int(p[1])]
+            elif v[0] == "agg" and p[0] == "dc":
+                if v[2] != p[1]:
+                    return ("?",)
+            elif v[0] == "agg" and p[0] == "f" and p[1].isdigit() and int(p[1]) < len(v[3]):
+                v = v[3][int(p[1])]
+            else:
+                return ("?",)
+        return v
+
+    def ev_op(env, op):
+        c = op_const(op)
+        if c is not None:
+            return ("const", c.get("int", c.get("txt")))
+        pl = op_place(op)
+        if pl is None:
+            return ("?",)
+        return proj_val(env.get(pl["l"], ("?",)), pl["p"])
+
+    def discr_value(v):
+        if v[0] == "param" and not [p for p in v[2] if p[0] != "dc"] and v[1] in fixed:
+            return discr_of[fixed[v[1]]]
+        if v[0] == "agg" and v[1] == adt:
+            return discr_of.get(v[2])
+        return None
+
+    steps = 0
+    while stack:
+        bb, env, depth = stack.pop()
+        while True:
+            steps += 1
+            if steps > max_steps:
+                return None
+            b = blocks[bb]
+            env = dict(env)
+            for s in b["s"]:
+                rv = s["rv"]
+                k = rv["k"]
+                if k in ("use", "cast"):
+                    v = ev_op(env, rv["op"])
+                elif k in ("ref", "rawptr"):
+                    v = proj_val(env.get(rv["pl"]["l"], ("?",)), rv["pl"]["p"])
+                elif k == "agg":
+                    ops = [ev_op(env, o) for o in rv["ops"]]
+                    if "tuple" in rv:
+                        v = ("tuple", ops)
+                    elif "adt" in rv:
+                        v = ("agg", rv["adt"], rv["variant"], ops)
+                    else:
+                        v = ("?",)
+                elif k == "discr":
+                    dv = discr_value(proj_val(env.get(rv["pl"]["l"], ("?",)), rv["pl"]["p"]))
+                    v = ("discr", dv) if dv is not None else ("?",)
+                else:
+                    v = ("?",)
+                if not s["lhs"]["p"]:
+                    env[s["lhs"]["l"]] = v
+            t = b["t"]
+            kk = t["k"]
+            if kk == "return":
+                results.append(env.get(0, ("?",)))
+                paths += 1
+                break
+            if kk in ("goto", "drop", "assert"):
+                bb = t["t"]
+                continue
+            if kk == "call":
+                if not t["dest"]["p"]:
+                    env[t["dest"]["l"]] = ("call", (t.get("callee") or "?"), [ev_op(env, a) for a in t["args"]])
+                if t["t"] is None:
+                    break
+                bb = t["t"]
+                continue
+            if kk == "switch":
+                pl = op_place(t["discr"])
+                v = env.get(pl["l"]) if pl is not None and not pl["p"] else None
+                if v is not None and v[0] == "discr":
+                    tm = dict((x, y) for x, y in t["targets"])
+                    bb = tm.get(v[1], t["otherwise"])
+                    continue
+                succ = [y for _, y in t["targets"]] + [t["otherwise"]]
+                if paths + len(stack) > max_paths:
+                    return None
+                for y in succ[1:]:
+                    if y is not None:
+                        stack.append((y, env, depth + 1))
+                bb = succ[0]
+                continue
+            break
+    return results
